@@ -248,7 +248,7 @@ func (sqlEngine) Decode(b []byte) (any, error) {
 	return &c, err
 }
 
-var unicodeContents = []string{"plain", "<a href=\"x\">&amp;</a>", "line\nbreak\ttab", "   separators", "emoji \U0001F600 astral", "quote\" back\\slash", "nul-free \u0001\u001f controls", "日本語 テキスト", ""}
+var unicodeContents = []string{"plain", "<a href=\"x\">&amp;</a>", "line\nbreak\ttab", "   separators", "emoji \U0001F600 astral", "quote\" back\\slash", "nul-free \u0001\u001f controls", "日本語 テキスト", "literal \\u2028 \\\\u2029 \\u0026", ""}
 
 func genSQLEvents(t *rapid.T, avoid bool) []cacheEv {
 	cc := &CacheCase{}
